@@ -53,12 +53,17 @@ class MidiInputDevice:
         if message.type == 'clock':
             if self.last_clock_time is not None:
                 dt = time.time() - self.last_clock_time
-                tick_estimate = (120 / 48) * 1.0 / dt
-                if self.estimated_tempo is None:
-                    self.estimated_tempo = tick_estimate
-                else:
-                    smoothing = 0.95
-                    self.estimated_tempo = (smoothing * self.estimated_tempo) + ((1.0 - smoothing) * tick_estimate)
+                if dt > 0:
+                    #--------------------------------------------------------------------------------
+                    # Two clock messages can carry the same time reading (coarse system timer,
+                    # fast clock): skip the tempo estimate then, but never the tick itself.
+                    #--------------------------------------------------------------------------------
+                    tick_estimate = (120 / 48) * 1.0 / dt
+                    if self.estimated_tempo is None:
+                        self.estimated_tempo = tick_estimate
+                    else:
+                        smoothing = 0.95
+                        self.estimated_tempo = (smoothing * self.estimated_tempo) + ((1.0 - smoothing) * tick_estimate)
                 self.last_clock_time = time.time()
             else:
                 self.last_clock_time = time.time()
